@@ -195,6 +195,11 @@ func checkC07(c *Ctx) {
 		c.transferForms(fi, "tree.Tree.AddBipartition", false)
 	}
 	c.checkPair("PAIR", map[string]bool{"RemoveEdges": true, "resolveRecur": true, "AddBipartition": true})
+	c.Decides("OPTVAR-LOOP: no command overwrites the storage of one of its options, inside its loop over the input trees, with a value computed from the current tree (a threshold capped for one tree would then be used, capped, for every tree after it)")
+	nl, _ := c.optVarLoop("OPTVAR-LOOP", "contracts exactly the branches meeting the criterion")
+	if nl < 100 {
+		c.Undecided("OPTVAR-LOOP", "scan-count", 0, fmt.Sprintf("only %d loops of package cmd seen (more than 100 confirmed by hand)", nl))
+	}
 	c.Floor("GF", 4)
 	c.Floor("LF", 6)
 	c.Floor("PAIR", 8)
